@@ -463,3 +463,7 @@ impl PartialEq<rt::rwlock::Action> for Action {
         *self == other
     }
 }
+
+#[cfg(loom_verif)]
+#[path = "/verif/hooks/object_verif.rs"]
+pub(crate) mod verif;
